@@ -283,7 +283,7 @@ where
         (out, None)
     }
 
-    fn record(&self, st: &mut Stats, case: &C, out: &Outcome, known: Option<&'static str>) {
+    pub fn record(&self, st: &mut Stats, case: &C, out: &Outcome, known: Option<&'static str>) {
         self.record2(st, case, out, known, false)
     }
 
